@@ -55,9 +55,12 @@ pub fn direct_lower(s: &str) -> String {
 pub fn c08_check(p: &str, out: &str) -> Option<Value> {
     let cls = class_of_profile(p);
     for (i, c) in out.chars().enumerate() {
-        let v = class_value_char(cls, c);
-        if v == "DISALLOWED" || v == "UNASSIGNED" {
-            return Some(json!({"c08": "forbidden", "cp": c as u32, "pos": i, "prop": v}));
+        // the output is classified through BOTH entry points of the class: the validation the pipeline itself
+        // ran used only one of them
+        for v in [class_value_char(cls, c), class_value_g(cls, c as u32)] {
+            if v == "DISALLOWED" || v == "UNASSIGNED" {
+                return Some(json!({"c08": "forbidden", "cp": c as u32, "pos": i, "prop": v}));
+            }
         }
     }
     let again = call_profile(p, "enforce", &[out.to_string()]);
